@@ -476,8 +476,10 @@ func VerifC50_bigdelta() {
 
 // c50atoms: one code point per class that matters to label validation and the Bidi Rule (RFC 5893): ASCII letter (L),
 // ASCII digit (EN), hyphen (ES), upper-case ASCII letter (mapped by the mapping profiles, disallowed by the others),
-// non-ASCII L, R (Hebrew), AL (Arabic), AN (Arabic-Indic digit).
-var c50atoms = []rune{'a', '1', '-', 'A', 0xfc, 0x5d0, 0x627, 0x660}
+// non-ASCII L, R (Hebrew), AL (Arabic), AN (Arabic-Indic digit), and a combining mark (U+0301: after 'a' or U+00FC the
+// label is not in NFC, so the normalisation step of the mapping profiles is exercised at every position of a name;
+// added after seeded change C50-F).
+var c50atoms = []rune{'a', '1', '-', 'A', 0xfc, 0x5d0, 0x627, 0x660, 0x301}
 
 // VerifC50_names (B): multi-label names whose labels are enumerated over every sequence of atoms from c50atoms (quick:
 // one label of 1..3 atoms, two labels of 1..2 atoms, three labels of 1 atom; thorough: in names of two or three labels
